@@ -221,6 +221,8 @@ func (g *gen) flags() string {
 		return "fc"
 	case 4:
 		return g.rng.Pick([]string{"n", "u", "x", "m", "i", "w", "fu", "fx"})
+	case 5:
+		return g.rng.Pick([]string{"F", "F", "Fu"})
 	}
 	return "-"
 }
@@ -350,7 +352,8 @@ func (g *gen) history(maxSteps int) string {
 				wr("U", path, g.value(2))
 			}
 		case k < 48:
-			wr("U", path+"/"+g.rng.Pick(plainKeys)+"/"+g.rng.Pick(plainKeys)+g.rng.Pick([]string{"", "/n"}), g.value(1))
+			// below something that does not exist: only PUT makes the maps on the way
+			wr(g.rng.Pick([]string{"U", "U", "U", "P", "A", "D"}), path+"/"+g.rng.Pick(plainKeys)+"/"+g.rng.Pick(plainKeys)+g.rng.Pick([]string{"", "/n"}), g.value(1))
 		case k < 56:
 			wr("P", path, g.value(2))
 		case k < 60:
